@@ -198,7 +198,14 @@ def _vector_def(v):
         d = v.get("default_on")
         if d is not None:
             kw["default_on"] = tuple(d) if isinstance(d, list) else d
-    return cls(v["name"], **kw)
+    vdef = cls(v["name"], **kw)
+    # the element definition objects exactly as they were PASSED IN (an application may keep such references and subscribe
+    # handlers through them rather than through group.vector.element)
+    try:
+        vdef._vf_original_elements = kw["elements"]
+    except Exception:
+        pass
+    return vdef
 
 
 def _group_def(g):
